@@ -256,6 +256,10 @@ int tls13_send(TLS_CONNECT *conn, const uint8_t *data, size_t datalen, size_t *s
 		seq_num = conn->server_seq_num;
 	}
 
+	if (datalen > TLS_MAX_PLAINTEXT_SIZE) {
+		datalen = TLS_MAX_PLAINTEXT_SIZE;
+	}
+
 	if (tls13_gcm_encrypt(key, iv,
 		seq_num, TLS_record_application_data, data, datalen, padding_len,
 		record + 5, &recordlen) != 1) {
